@@ -2,7 +2,7 @@
    Only the property theorems, closed by [exact]; the model (StaticPerm.v) mirrors
    utility/static_permutation.hpp and is tied to it by the compile-time correspondence check. *)
 From Coq Require Import List Arith NArith Sorted Permutation.
-From Covfie Require Import StaticPerm Refine_StaticPerm.
+From Covfie Require Import StaticPerm Refine_StaticPerm SpermEval.
 From Covfie.gen Require Import Gen_StaticPerm.
 Import ListNotations.
 
@@ -22,6 +22,14 @@ Proof. exact is_perm_iff. Qed.
 (* the equations of the metaprogram as they stand in static_permutation.hpp on this run are, one for one, the model's *)
 Theorem C20_equations_are_the_sources : sp_equations = model_equations /\ sp_bases = model_bases /\ sp_problems = O.
 Proof. exact (conj equations_are_the_models (conj predicate_is_the_models source_read_completely)). Qed.
+
+(* a TEST over a finite domain, not a theorem about all sequences: evaluating sort_index_sequence with the source's equations
+   (template instantiation by first matching specialisation, pattern variables bound in declaration order) yields the model's
+   sort on every sequence over {0,1,2,3} of length <= 5 -- the reading of the type language computes what the model computes *)
+Example C20_source_equations_compute_the_model_sort_bounded :
+  forallb (fun l => match sort_by_source l with Some r => if list_eq_dec N.eq_dec r (sort l) then true else false | None => false end)
+          (up_to [0; 1; 2; 3]%N 5) = true.
+Proof. exact source_equations_compute_the_model_sort_bounded. Qed.
 
 Print Assumptions C20_sort_is_ascending.
 Print Assumptions C20_sort_same_multiset.
